@@ -869,6 +869,26 @@ def run(tier, seed, replay=None):
             r.violation(sig, f"implementation oracle failed: {o2[0]} on {small}", {"case": small, "oracle": o2[0]})
     for i in bad[:3]:
         r.is_broken("correspondence", f"model and implementation differ on: {cases[i]}\n impl : {impl[i]}\n model: {model[i]}")
+    if r.broken and not r.violations and not replay:
+        # P6: something no longer checks and no case failed the oracle: search with a larger budget, oracle only
+        extra, st2 = [], {}
+        for i in range(3000):
+            a, b = gen_pair(r.rng, st2)
+            extra.append(mk_pair(a, b, r.rng.getrandbits(32)))
+            extra.append(mk_seq(a, good_ops(a, b), 1, r.rng.getrandbits(32)))
+            t = gen_tick(r.rng, st2)
+            if t:
+                extra.append(t)
+        extra.append(f"k=enum sample=2000000 seed={r.rng.getrandbits(32)} ety=8")
+        try:
+            _, _, o2 = both("c04search", extra, bins, model=False)
+            for c, o in zip(extra, o2):
+                if o != "ok" and not c.startswith("k=enum") and sig_of(o) not in seen:
+                    seen.add(sig_of(o))
+                    r.violation(sig_of(o), f"search: implementation oracle failed: {o} on {c}", {"case": c, "oracle": o})
+            r.phase("P6_search", cases=len(extra), found=len(r.violations))
+        except vf.Broken as e:
+            r.is_broken("search-run", e)
     kinds = {}
     for l in impl:
         res = [t for t in l.split() if t.startswith(("res=", "rres="))]
